@@ -2305,3 +2305,74 @@ X224_CONFIRM_NATIVE = _native("verif_replay_x224_confirm_values", "src/core/x224
                 }
             }
         }""")
+
+
+# --------------------------------------------------------------------------
+# C12: decision logic of the recognisers (not their parsing)
+# --------------------------------------------------------------------------
+def _promoted_consts(text, fn_short):
+    out = {}
+    for m in re.finditer(r"^const [^\n]*%s::promoted\[(\d+)\]: &(\w+) = \{(.*?)\n\}" % re.escape(fn_short), text, re.S | re.M):
+        v = re.search(r"_\d+ = (\w+::\w+);", m.group(3))
+        out[m.group(1)] = (m.group(2), v.group(1) if v else None)
+    return out
+
+
+RECOGNISERS = {
+    "read_demand_active_pdu": [("PDUType", "PDUType::PdutypeDemandactivepdu")],
+    "read_synchronize_pdu": [("PDUType", "PDUType::PdutypeDatapdu"), ("PDUType2", "PDUType2::Pdutype2Synchronize")],
+    "read_control_pdu": [("PDUType", "PDUType::PdutypeDatapdu"), ("PDUType2", "PDUType2::Pdutype2Control")],
+    "read_font_map_pdu": [("PDUType", "PDUType::PdutypeDatapdu"), ("PDUType2", "PDUType2::Pdutype2Fontmap")],
+}
+
+
+def recognisers(ctx, mir, stats):
+    text = ctx.get("mir_text", "")
+    obs = []
+    for name, expected in RECOGNISERS.items():
+        f = find_fn(mir, r"^global::<impl at src/core/global\.rs[^>]*>::%s$" % name)
+        proms = _promoted_consts(text, name)
+        se = SymExec(f, stats, loop_bound=1, max_paths=20000).run()
+        n_true = 0
+        for p in se.finished:
+            ret = _last_assign_to_ret(p) or ""
+            m = re.match(r"Result::<bool, .*>::Ok\(const (true|false)\)", ret)
+            if not m:
+                continue          # error exits: parse errors are allowed to end the call
+            val = m.group(1) == "true"
+            # outcome of each type comparison on this path
+            matched = []
+            for i, e in calls_on(p.events, r"<PDUType2? as PartialEq>::(eq|ne)$"):
+                pm = re.search(r"promoted\[(\d+)\]", resolve_source(p.events, i, e[4][1], depth=3) + " " + " ".join(str(x[3]) for x in p.events[:i] if x[0] == "assign" and "promoted" in str(x[3]) and x[2].strip() == re.sub(r"^(move|copy) ", "", e[4][1]).strip()))
+                const = proms.get(pm.group(1), (None, None))[1] if pm else None
+                t = path_taint(p.events[i:], {e[5]})
+                bi, lab = branch_on(p.events[i:], t)
+                is_eq = (e[2].endswith("::eq") and lab != "0") or (e[2].endswith("::ne") and lab == "0")
+                matched.append((const, is_eq))
+            want = [c for ty, c in expected]
+            got_all = [c for c, ok in matched if ok]
+            if val and name == "read_control_pdu":
+                # the action field must equal the expected action on the accepting path
+                cmpv = [e for e in p.events if e[0] == "assign" and re.match(r"(Ne|Eq)\((?:copy|move) _\d+, (?:copy|move) _\d+\)$", e[3]) and e[4] is not None]
+                act_ok = False
+                if cmpv:
+                    a, b = re.findall(r"(?:copy|move) (_\d+)", cmpv[-1][3])
+                    va, vb = p.env.get(a), p.env.get(b)
+                    if va is not None and vb is not None and va.size() == vb.size():
+                        vd, md, sm = se.check(p, [va != vb], "control action")
+                        act_ok = vd == "unsat"
+                obs.append({"id": "read_control_pdu:action-must-match", "ok": act_ok, "functions": [f.name],
+                            "detail": "a control PDU is accepted only when its action field equals the action the state expects" if act_ok else "the action field is not compared with the expected action on the accepting path", "where": f.name})
+            if val:
+                n_true += 1
+                ok = got_all == want
+                obs.append({"id": "%s:true-only-on-its-pdu" % name, "ok": ok, "functions": [f.name],
+                            "detail": "returns true only after matching %s" % want if ok else "returns true after matching %s (expected %s)" % (matched, want), "where": f.name, "path": p.trace})
+            else:
+                # false must be justified by a failed comparison against one of the expected constants
+                failed = [c for c, okk in matched if not okk]
+                ok = len(failed) == 1 and failed[0] in want and got_all == want[:want.index(failed[0])]
+                obs.append({"id": "%s:false-only-on-other-pdu" % name, "ok": ok, "functions": [f.name],
+                            "detail": "returns false exactly when one of the expected type comparisons fails" if ok else "returns false although the comparisons were %s (a PDU of the expected kind can be ignored)" % matched, "where": f.name, "path": p.trace})
+        obs.append({"id": "%s:can-accept" % name, "ok": n_true >= 1, "functions": [f.name], "detail": "some path accepts (%d)" % n_true, "where": f.name})
+    return obs
